@@ -247,6 +247,25 @@ func TestVerif_C14(t *testing.T) {
 		wrap("create", "dataset-records+next-dataset-id")
 		wrap("delete", "deleted-set")
 		wrap("rename", "dataset-records")
+		// first use of a namespace by a READ: a lookup or relation query by full URI in a namespace the hub
+		// has not seen hands out a prefix (visible in GET /namespaces and every @context) - it has to be
+		// the same prefix after a restart
+		acts["readNewNamespace"] = func(t *rapid.T) {
+			g.t = t
+			k := rapid.IntRange(0, 5).Draw(t, "ns")
+			uri := fmt.Sprintf("http://fresh.example/read%d/x", k)
+			how := rapid.IntRange(0, 2).Draw(t, "how")
+			g.record(Op{K: "readNewNamespace", ID: uri, N: how})
+			switch how {
+			case 0:
+				_, _ = f.Lookup(uri, nil)
+			case 1:
+				_, _ = f.Do("POST", "/query", `{"entityId":"`+uri+`"}`, nil)
+			default:
+				_, _, _ = f.Related(uri, "*", false, nil, nil)
+			}
+			paths["path:namespaces-by-read"] = true
+		}
 		acts["addJob"] = func(t *rapid.T) {
 			g.t = t
 			id := rapid.SampledFrom(jobIDs).Draw(t, "job")
